@@ -24,3 +24,16 @@ func VerifDistributePoints(shards []VerifShardInfo, points []models.Point, maxSh
 func (c *ClusterNode) VerifShardManager() *ShardManager {
 	return c.shardManager
 }
+
+// VerifDropRPCClients closes and forgets every cached RPC client connection
+// of this node, so that the next call has to dial again (used to make a
+// stopped peer really unreachable: http.Server.Shutdown does not close the
+// hijacked RPC connections).
+func (c *ClusterNode) VerifDropRPCClients() {
+	c.rpcClientsMu.Lock()
+	defer c.rpcClientsMu.Unlock()
+	for dest, client := range c.rpcClients {
+		client.Close()
+		delete(c.rpcClients, dest)
+	}
+}
